@@ -132,6 +132,17 @@ CLAIMED = {
    note="Partial by nature of the technique: memory safety of C is not expressible in the model beyond explicit bounds-checked reads; "
         "allocation failures are modelled with a platform threshold (2^40).",
    technique="Lean 4 proof (NoOob predicate over the monadic parser model, bind lemma, induction over the entry/optional-element loops) + sanitizer runs as search and correspondence"),
+ 'C08': dict(
+   text="Machine-checked proof (Lean 4) about the model of zck_copy_chunks / write_and_verify_chunk / zero_chunk / zck_find_matching_chunks, for "
+        "an arbitrary hash function: the copy changes no target byte outside the extents of chunks that were not marked valid before "
+        "(header and valid chunks untouched); a step marks a chunk valid only when the bytes it has just written at the chunk's extent "
+        "hash to the source index checksum it was looked up by and have the full stored size; a source chunk is looked up by checksum and "
+        "used only under the two size tests; matching pairs only chunks with equal (uncompressed) checksum and equal length. Tied to the "
+        "code by COPY/MATCH ops with intact, corrupted, truncated, mis-indexed and size-mismatched sources, judged on the files before/after.",
+   design_ref="DESIGN.md section 7 C08",
+   note="Whole-loop 'valid implies bytes hash to the TARGET index checksum' combines the step theorem with disjoint extents and equal "
+        "checksum types; that combination is evaluated by the predicate on real files, not proved. Source immutability is checked on files.",
+   technique="Lean 4 proof (list-slice algebra for writes at offsets, induction over the target chunk list) + differential correspondence"),
 }
 
 NOT_YET = "machinery for this property is not built yet in this snapshot (work in progress; see DESIGN.md section 11 build order)"
